@@ -20,7 +20,9 @@ def _expected_chunks(case, y, val, ref, a, x):
     spec = case.get("spec")
     if spec is None:
         return None
-    env = {"np": np, "da": da, "x": x, "a": a}
+    from mc import userfns
+
+    env = {"np": np, "da": da, "x": x, "a": a, "uf": userfns}
     parent = eval(case["parent_expr"], env) if case.get("parent_expr") else x
     sp = eval(spec, {"None": None})
     nd = parent.ndim
@@ -149,7 +151,20 @@ def _gen_2d(shape, chunks):
             yield c
 
 
+def _gen_zero_blocks(n, ch):
+    """Sources that contain zero-width blocks (as compute_chunk_sizes leaves
+    them behind), below producers a rechunk cannot be absorbed into."""
+    src = E.src((n,), (ch,))
+    targets = [str(k) for k in range(1, n + 1)] + ["-1"] + [repr((c,)) for c in compositions(n)[::3]]
+    for t in targets:
+        for prod, nprod in (("da.map_blocks(uf.ub_neg, x, dtype='f8')", "-a"), ("x.persist(scheduler='sync')", "a"), ("x", "a"), ("(x + 1)", "a + 1")):
+            yield {"source": src, "expr": f"{prod}.rechunk({t})", "nexpr": nprod, "label": "rechunk-zero-blocks", "spec": t, "parent_expr": prod, "np_raises_must_raise": False}
+
+
 def gen_cases(shard):
+    if shard["what"] == "1dz":
+        yield from _gen_zero_blocks(shard["n"], tuple(shard["chunks"]))
+        return
     if shard["what"] == "1d":
         yield from _gen_1d(shard["n"], tuple(shard["chunks"]))
     else:
@@ -162,6 +177,12 @@ def plan_shards(tier):
     for n in range(0, nmax + 1):
         for ch in compositions(n):
             shards.append({"what": "1d", "n": n, "chunks": list(ch)})
+    from mc.domains import chz
+
+    for n in (4, 5) if tier == "quick" else (3, 4, 5, 6):
+        zs = [c for c in chz(n, 1) if 0 in c]
+        for ch in zs[:: (2 if tier == "quick" else 1)]:
+            shards.append({"what": "1dz", "n": n, "chunks": list(ch)})
     for shp in [(3, 4)] + ([(2, 2), (0, 3)] if tier != "quick" else []):
         chs = list(itertools.product(*[compositions(s) for s in shp]))
         for c in chs[:: (3 if tier == "quick" else 1)]:
@@ -191,7 +212,7 @@ def _extra(case, y, val, ref, a, x):
 
 _m = CC.make(
     "C14", gen_cases, plan_shards,
-    rule="(rechunk also below consumers that observe the delivered grid: block-dependent map_blocks and .blocks, over plain, where=/out= and concatenate producers) every source chunking of n<=6 (and of (3,4)) x every target spec (every explicit chunking, ints 1..n+1, -1, None, dicts incl. negative axes, 'auto', byte strings, method='tasks', planner knobs, balance=True): chunks == normalize_chunks(spec, shape, previous_chunks), values unchanged, every block has the advertised size; plus a rechunk at every position of short programs over elemwise/broadcast/transpose/concatenate/expand_dims/slice/second rechunk/reduction, and an unknown-size axis left untouched. Non-trivial = multi-block source and non-empty result",
+    rule="(sources with a zero-width block at every position, below map_blocks / persisted / plain / elemwise producers, to every target; rechunk also below consumers that observe the delivered grid: block-dependent map_blocks and .blocks, over plain, where=/out= and concatenate producers) every source chunking of n<=6 (and of (3,4)) x every target spec (every explicit chunking, ints 1..n+1, -1, None, dicts incl. negative axes, 'auto', byte strings, method='tasks', planner knobs, balance=True): chunks == normalize_chunks(spec, shape, previous_chunks), values unchanged, every block has the advertised size; plus a rechunk at every position of short programs over elemwise/broadcast/transpose/concatenate/expand_dims/slice/second rechunk/reduction, and an unknown-size axis left untouched. Non-trivial = multi-block source and non-empty result",
     assumptions=["normalize_chunks (checked separately in C16) resolves the spec", "NumPy values are the reference (rechunk is the identity on values)"],
     floors={"accepted": 3000},
     extra=_extra,
